@@ -145,6 +145,55 @@ pub fn run_cmd_os(program: &str, w: &World, args: &[std::ffi::OsString], env_os:
     obs
 }
 
+/// how the child's standard output is wired, and which symbolic links exist in its directory
+#[derive(Clone, Debug)]
+pub enum StdoutMode { Pipe, DevFull, CloseAfter(usize) }
+#[derive(Clone, Debug)]
+pub struct Wiring { pub stdout: StdoutMode, pub links: Vec<(String, String)> }
+
+/// `kestrel` with an unusual but legal wiring: standard output on a full device (every write fails with ENOSPC), or on a pipe whose
+/// reader goes away after `n` bytes (EPIPE / SIGPIPE for the rest), and symbolic links pre-created in the working directory.
+/// For each link `l` the observation carries a pseudo-file `l@symlink` (present iff `l` is still a symbolic link afterwards).
+pub fn run_kestrel_wired(w: &World, args: &[String], wiring: &Wiring) -> CliObs {
+    let dir = format!("/verif/.cache/tmp/{}-{}", std::process::id(), COUNTER.fetch_add(1, Ordering::SeqCst));
+    let _ = std::fs::remove_dir_all(&dir);
+    std::fs::create_dir_all(&dir).expect("scratch dir");
+    for (p, b) in &w.files { std::fs::write(format!("{}/{}", dir, p), b).expect("write fixture"); }
+    for (l, t) in &wiring.links { let _ = std::os::unix::fs::symlink(t, format!("{}/{}", dir, l)); }
+    let mut cmd = Command::new(bin());
+    cmd.args(args).current_dir(&dir).env_clear().stderr(Stdio::piped()).stdin(Stdio::piped());
+    match wiring.stdout {
+        StdoutMode::DevFull => { match std::fs::OpenOptions::new().write(true).open("/dev/full") { Ok(f) => { cmd.stdout(Stdio::from(f)); } Err(_) => { cmd.stdout(Stdio::piped()); } } }
+        _ => { cmd.stdout(Stdio::piped()); }
+    }
+    for (k, v) in &w.env { cmd.env(k, v); }
+    unsafe { use std::os::unix::process::CommandExt; cmd.pre_exec(|| { libc::setsid(); Ok(()) }); }
+    let mut obs = CliObs::default();
+    let mut child = match cmd.spawn() { Ok(c) => c, Err(e) => { obs.stderr = format!("spawn failed: {}", e); let _ = std::fs::remove_dir_all(&dir); return obs; } };
+    let stdin = child.stdin.take(); let data = w.stdin.clone();
+    let tin = std::thread::spawn(move || { if let Some(mut si) = stdin { let _ = si.write_all(&data); } });
+    let so = child.stdout.take(); let mut se = child.stderr.take().unwrap();
+    let mode = wiring.stdout.clone();
+    let tout = std::thread::spawn(move || { let mut v = vec![]; if let Some(mut so) = so { match mode {
+        StdoutMode::CloseAfter(n) => { let mut buf = vec![0u8; n.max(1)]; let mut got = 0; while got < n { match so.read(&mut buf[got..]) { Ok(0) | Err(_) => break, Ok(k) => got += k } } v.extend_from_slice(&buf[..got]); drop(so); }
+        _ => { let _ = so.read_to_end(&mut v); } } } v });
+    let terr = std::thread::spawn(move || { let mut v = vec![]; let _ = se.read_to_end(&mut v); v });
+    let t0 = Instant::now();
+    let status = loop {
+        match child.try_wait() { Ok(Some(s)) => break Some(s), Ok(None) => { if t0.elapsed() > Duration::from_secs(30) { let _ = child.kill(); let _ = child.wait(); obs.timed_out = true; break None; } std::thread::sleep(Duration::from_millis(2)); } Err(_) => break None }
+    };
+    let _ = tin.join();
+    obs.stdout = tout.join().unwrap_or_default();
+    obs.stderr = String::from_utf8_lossy(&terr.join().unwrap_or_default()).to_string();
+    if let Some(s) = status { obs.exit = s.code(); obs.signal = s.code().is_none(); }
+    if let Ok(rd) = std::fs::read_dir(&dir) { for e in rd.flatten() { if let Ok(name) = e.file_name().into_string() {
+        if std::fs::symlink_metadata(e.path()).map(|m| m.file_type().is_symlink()).unwrap_or(false) { obs.files.push((format!("{}@symlink", name), vec![1])); }
+        if let Ok(b) = std::fs::read(e.path()) { if b.len() <= (4 << 20) { obs.files.push((name, b)); } else { obs.files.push((name, format!("<{} bytes>", b.len()).into_bytes())); } } } } }
+    obs.files.sort();
+    let _ = std::fs::remove_dir_all(&dir);
+    obs
+}
+
 /// Run `kestrel` on a terminal: standard input is a pseudo-terminal that is also the controlling terminal of the
 /// child (so /dev/tty works), standard output and standard error stay pipes, and `typed` is what the user types
 /// (one line per prompt, each ending in '\n'). Returns the observation and everything the terminal displayed.
